@@ -303,6 +303,7 @@ func run(s *tbin.Shape, n int, drop int, fam string) core.Result {
 		c.famMany()
 	case "children":
 		c.famChildren()
+		c.famChildrenIndexed()
 	case "foreach":
 		c.famForeach()
 	case "iface":
@@ -827,6 +828,49 @@ func (c *ctx) famMany() {
 				}
 			}
 		}
+		// bulk lookups whose paths do not fit the kind of the value at all: an error (or error nodes), never a node, never a panic
+		{
+			var wrong [][]generic.Path
+			switch p.V.T {
+			case tbin.STRUCT:
+				wrong = [][]generic.Path{{generic.NewPathIndex(0)}, {generic.NewPathStrKey("a")}, {generic.NewPathIntKey(1)}, {generic.NewPathIndex(0), generic.NewPathIndex(1)}}
+			case tbin.MAP:
+				wrong = [][]generic.Path{{generic.NewPathIndex(0)}, {generic.NewPathFieldId(1)}, {generic.NewPathFieldId(2)}, {generic.NewPathFieldId(4)}, {generic.NewPathFieldId(8)}, {generic.NewPathFieldId(1), generic.NewPathFieldId(4)}}
+			default:
+				wrong = [][]generic.Path{{generic.NewPathFieldId(1)}, {generic.NewPathStrKey("a")}, {generic.NewPathIntKey(0)}, {generic.NewPathFieldId(1), generic.NewPathFieldId(2)}}
+			}
+			for _, w := range wrong {
+				for _, api := range []string{"GetMany", "GetTree"} {
+					w, api := w, api
+					trig := fmt.Sprintf("%s,paths-of-the-wrong-kind", k)
+					c.guard("Node."+api, trig, func() {
+						pns := make([]generic.PathNode, len(w))
+						for i := range w {
+							pns[i].Path = w[i]
+						}
+						var err error
+						if api == "GetMany" {
+							err = pn.GetMany(pns, &generic.Options{})
+						} else {
+							tree := generic.PathNode{Node: pn, Next: pns}
+							err = pn.GetTree(&tree, &generic.Options{})
+							pns = tree.Next
+						}
+						if err != nil {
+							return
+						}
+						for i := range pns {
+							if !pns[i].Node.IsEmpty() && !pns[i].Node.IsError() {
+								c.viol("Node."+api, trig, "non-error", "path %v does not fit a %s, yet a node of type %v was returned without error", w[i], k, pns[i].Node.Type())
+							}
+						}
+						if len(pns) > 0 && pns[0].Node.IsEmpty() {
+							c.viol("Node."+api, trig, "non-error", "paths %v do not fit a %s: nil error and empty nodes (indistinguishable from an absent element)", w, k)
+						}
+					})
+				}
+			}
+		}
 		// maps: one request that spells its keys in two ways (natural str / int key and raw bin key)
 		if p.V.T == tbin.MAP && len(ch) >= 2 {
 			for i := range ch {
@@ -1041,6 +1085,56 @@ func (c *ctx) famChildren() {
 					}
 				}
 			}
+		}
+	}
+}
+
+// famChildrenIndexed: Children with StoreChildrenById / StoreChildrenByHash lays the children out by id / hash
+// slot: the listing is compared as a SET (every child of the value exactly once, nothing else; empty slots skipped).
+func (c *ctx) famChildrenIndexed() {
+	for _, p := range tutil.Positions(c.v, c.s, c.buf) {
+		if p.V.T != tbin.STRUCT && p.V.T != tbin.MAP {
+			continue
+		}
+		p := p
+		var pn generic.Node
+		if pi := core.Catch(func() { pn = c.nodeAt(p) }); pi != nil || pn.IsError() {
+			continue
+		}
+		want := tutil.Children(p.V, p.S, c.buf)
+		for _, recurse := range []bool{false, true} {
+			recurse := recurse
+			trig := fmt.Sprintf("%s,recurse=%v,by-id+by-hash", kindOf(p.V), recurse)
+			c.guard("Node.Children", trig, func() {
+				var out []generic.PathNode
+				if err := pn.Children(&out, recurse, &generic.Options{StoreChildrenById: true, StoreChildrenByHash: true}); err != nil {
+					c.viol("Node.Children", trig, "error", "%v", err)
+					return
+				}
+				var got []generic.PathNode
+				for _, x := range out {
+					if x.Path.Type() != 0 {
+						got = append(got, x)
+					}
+				}
+				if len(got) != len(want) {
+					c.viol("Node.Children", trig, "wrong-count", "%d children listed, the value has %d", len(got), len(want))
+				}
+				for _, w := range want {
+					n := 0
+					for _, g := range got {
+						if samePath(g.Path, w.PE) {
+							n++
+							if n == 1 {
+								c.checkNode("Node.Children", trig, g.Node, w.V)
+							}
+						}
+					}
+					if n != 1 {
+						c.viol("Node.Children", trig, "child-listed-not-once", "child %s of the value is listed %d times", w.PE, n)
+					}
+				}
+			})
 		}
 	}
 }
